@@ -84,8 +84,15 @@ pub fn ident(id: &str) -> RcDoc<'_> {
 }
 
 pub fn quote_ident(id: &str) -> RcDoc<'_> {
+    // NUL as `\u{0}`: escape_debug's `\0` followed by a digit is an octal escape, which strict-mode
+    // JavaScript / TypeScript reject
+    let escaped = id
+        .split('\0')
+        .map(|piece| piece.escape_debug().to_string())
+        .collect::<Vec<_>>()
+        .join("\\u{0}");
     str("'")
-        .append(format!("{}", id.escape_debug()))
+        .append(escaped)
         .append("'")
         .append(RcDoc::space())
 }
